@@ -468,17 +468,25 @@ def is_err(s):
     return isinstance(s, list) and s[:1] == ["err"]
 
 
+EVALUATOR = {"store": "fn", "let": "fn", "fnconst": "fn", "sub": "fn",
+             "modconst": "modconst", "modconstT": "modconst", "modabs": "modconst", "modnot": "modconst", "modnotT": "modconst", "modas": "modconst",
+             "switch": "switch", "arraysize": "arraysize", "wgsize": "wgsize", "assert": "assert"}
+
+
 def spec_class(c):
     """Compare the model's prediction (== naga's behaviour once the tie holds) with what WGSL
        specifies.  Returns None when they agree (or nothing is claimed), else a stable class key:
-         <evaluator>:<WGSL error reason>:<what naga does>[:<relation to the run-time value>]
-         <evaluator>:intermediate-not-wrapped:value        module evaluators, an intermediate left the 32-bit range
-         <evaluator>:not-evaluated:<what naga substitutes>  array size / workgroup_size
-         <evaluator>:<top operator>:<first literal kind>:value|type"""
+         <evaluator>:<WGSL error reason>:error-not-reported      a value is substituted where WGSL says shader-creation error
+         <evaluator>:const-error:left-to-run-time                 no value substituted, no diagnostic either (function scope)
+         <evaluator>:intermediate-not-wrapped:value               module evaluators: an intermediate result left the 32-bit range
+         <evaluator>:not-evaluated:<what naga substitutes>        array size / workgroup_size
+         <evaluator>:type:<WGSL type>-typed-as-<naga type>        module evaluators
+         <evaluator>:<top operator>:<first literal kind>:value|type
+       evaluator: fn (function-scope folder), modconst, switch, arraysize, wgsize, assert"""
     s, m = c.spec, c.model
     if s == "ill" or s is None:
         return None            # outside the modelled WGSL fragment: nothing is claimed
-    ev = "fn" if c.pos in FN_POS else c.pos
+    ev = EVALUATOR[c.pos]
     opn = "%s:%s" % (c.tag or top_op(c.e), first_leaf_kind(c.e))
     exact = c.extra.get("exact", True)
     if c.pos in ("wgsize", "arraysize"):
@@ -486,10 +494,10 @@ def spec_class(c):
         if want == "ill":
             return None
         not_eval = (c.pos == "wgsize" and not c.extra.get("evaluated", True)) or (c.pos == "arraysize" and m == "runtime")
-        if want == "err":
+        if want in ("err", "nonpositive"):
             if c.pos == "arraysize" and m == "error":
                 return None
-            return "%s:%s:error-not-reported" % (ev, s[1])
+            return "%s:%s:error-not-reported" % (ev, s[1] if is_err(s) else "size-not-positive")
         if want == m:
             return None
         if not_eval:
@@ -509,26 +517,32 @@ def spec_class(c):
     if is_err(s):
         if m is None:
             # no value substituted; at function scope the expression is left to run time without any diagnostic
-            return "%s:%s:error-left-to-run-time" % (ev, s[1]) if c.pos in FN_POS else None
-        how = ""
-        if isinstance(c.rt, list) and c.rt[:1] == ["lit"] and isinstance(m, list):
-            how = ":value-same-as-run-time" if m == c.rt else ":value-differs-from-run-time"
-        return "%s:%s:error-not-reported%s" % (ev, s[1], how)
+            return "%s:const-error:left-to-run-time" % ev if c.pos in FN_POS else None
+        return "%s:%s:error-not-reported" % (ev, s[1])
     # s is a literal
     if m is None:
         return None            # not folded (function scope) / rejected (module scope): no value was substituted
     if m == s:
         return None
     if m[1] != s[1]:
+        if c.pos not in FN_POS:
+            return "%s:type:%s-typed-as-%s" % (ev, s[1], m[1])
         return "%s:%s:type" % (ev, opn)
     if c.pos not in FN_POS and not exact:
         return "%s:intermediate-not-wrapped:value" % ev
     return "%s:%s:value" % (ev, opn)
 
 
+def rt_relation(c):
+    """for a folded value where WGSL says error: 'same' / 'differs' from the run-time value, or None"""
+    if is_err(c.spec) and isinstance(c.rt, list) and c.rt[:1] == ["lit"] and isinstance(c.model, list):
+        return "same" if c.model == c.rt else "differs"
+    return None
+
+
 def spec_positive_u32(s):
-    """the value a size/dimension must have per WGSL: a positive i32/u32 (abstract: representable);
-       'err' for a const-expression error, 'ill' when the value is not a valid size (not C06's business)"""
+    """the value a size/dimension must have per WGSL: 'err' for a const-expression error,
+       'nonpositive' when the value is <= 0 (WGSL: error), 'ill' when it is not an integer at all"""
     if is_err(s):
         return "err"
     if s[1] == "I32":
@@ -537,11 +551,11 @@ def spec_positive_u32(s):
         v = s[2]
     elif s[1] == "AI":
         v = s[2]
-        if not (0 < v < H32):
-            return "ill"
+        if v >= H32:
+            return "ill"       # which concrete type such a size takes is not modelled
     else:
         return "ill"
-    return v if v > 0 else "ill"
+    return v if v > 0 else "nonpositive"
 
 
 def top_op(e):
